@@ -63,3 +63,38 @@ def witness_F28():
         return False
     finally:
         circgen.unregister_open_element()
+
+
+# ---- F5 (C03): labels accepted by set_label that the tokenizer cannot read back
+def label_not_tokenizable(entry):
+    i = entry.get("input")
+    return isinstance(i, dict) and i.get("bad_label") is True and entry.get("what") in ("spelling", "roundtrip-rejected", "roundtrip-differs", "reserialise-not-identical")
+
+
+def witness_F5():
+    from pyimpspec import Resistor, parse_cdc
+    e = Resistor()
+    e.set_label("1abc")
+    try:
+        parse_cdc(e.to_string(1))
+    except Exception:
+        return True
+    return False
+
+
+# ---- F24 (C03): limits closer than the printed precision
+def limits_collapse_at_printed_precision(entry):
+    i = entry.get("input")
+    return isinstance(i, dict) and i.get("collapse") is True and entry.get("what") in ("roundtrip-rejected", "roundtrip-differs", "reserialise-not-identical")
+
+
+def witness_F24():
+    from pyimpspec import Resistor, parse_cdc
+    e = Resistor(R=1.02)
+    e.set_upper_limits(R=1.04)
+    e.set_lower_limits(R=1.0)
+    try:
+        parse_cdc(e.to_string(1))
+    except Exception:
+        return True
+    return False
